@@ -37,6 +37,7 @@ SCENARIO_COVERS = {
     "primitivCreateNode": ["primitivIsValidNode", "primitivDeleteNode"],
     "primitivGetNodeShape": ["primitivEvaluateNodeAsFloat", "primitivGetNodeOperatorId", "primitivGetGraphFromNode", "primitivExecuteNodeBackward"],
     "primitivCreateParameter": ["primitivIsValidParameter", "primitivDeleteParameter"],
+    "primitivApplyTensorParameter": ["primitivApplyNodeParameter"],
     "primitivCreateParameterWithValues": ["primitivDeleteParameter"],
     "INIT": ["primitivCreateParameterWithInitializer", "primitivInitializeParameterWithInitializer", "primitivApplyInitializer",
              "primitivDeleteInitializer", "primitivDeleteParameter"],
@@ -401,6 +402,7 @@ def eq_generators():
                                              rfloat(rng), rfloat(rng), rng.randrange(1000), rng.choice([0, 1]))
     G["primitivAddStatsToParameter"] = lambda rng: (lambda d: "%s %s s:%s %s" % (stok(d, 1), ttok(rng, d, 1), rng.choice(["m", "v", "x.y", "no-such-stats"]),
                                                                               stok(*rshape(rng))))(rshape(rng, 3)[0]) + inv(rng)
+    G["primitivApplyTensorParameter"] = lambda rng: (lambda d: "%s %s %d" % (stok(d, 1), ttok(rng, d, 1), rng.choice([0, 1])))(rshape(rng, 3)[0]) + inv(rng)
     G["primitivSaveParameter"] = lambda rng: (lambda d: "%s %s %d %d" % (stok(d, 1), ttok(rng, d, 1), rng.choice([0, 1]), rng.choice([0, 1])))(rshape(rng, 3)[0]) + inv(rng)
     G["primitivAddParameterToModel"] = lambda rng: "s:%s s:%s" % (rng.choice(["a", "p", "w.x", "q"]), rng.choice(["a", "b", "sub", "q"]))
     G["primitivCreateModel"] = lambda rng: ""
@@ -516,14 +518,21 @@ def cmp(impl, model):
         return True
     if model == "crash" and impl.startswith("crash"):
         return True
+    if model == "ok same" and impl == "ok same error":
+        return True
     if model == "pass":
         return impl == "ok" or impl == "err cpp" or impl.startswith("ok ")
     return False
 
 
-def make_judge(byname):
+def make_judge(byname, stats=None):
+    stats = stats if stats is not None else {}
+
     def judge(line, impl, model):
         w = line.split()
+        if w[0] == "eq":
+            k = "both succeed, equal results" if impl == "ok same" else "both fail, equal messages" if impl == "ok same error" else "other"
+            stats[k] = stats.get(k, 0) + 1
         if impl.startswith("crash"):
             return "the call crashes the process (%s) instead of returning a status" % impl
         if impl.startswith("bad-status") or impl.startswith("err-") or impl == "err" and w[0] in ("call", "eq"):
@@ -550,7 +559,7 @@ def make_judge(byname):
                         return "NULL for the required argument `%s` is accepted (PRIMITIV_C_OK)" % ps[i]["name"]
             return None
         if w[0] == "eq":
-            if impl != "ok same" and impl != "bad-op":
+            if impl not in ("ok same", "ok same error", "bad-op"):
                 return "C API and C++ API disagree: " + impl[:300]
             return None
         if w[0] == "sizeq" and w[1] in SIZEQ_FUNCS and len(w) == 4:
@@ -633,16 +642,18 @@ def run(chk):
         lines += [l.strip() for l in open(corpus) if l.strip() and not l.startswith("#")]
     calls = call_lines(table, chk.tier)
     lines += calls
-    eqs = eq_lines(chk.rng, 4 if quick else 40)
+    eqs = eq_lines(chk.rng, 4 if quick else 100)
     lines += eqs
     lines += ["call primitivNoSuchFunction v", "call primitivGetShapeDepth v", "call primitivGetShapeDepth v,q", "frobnicate", "eq primitivNoSuchFunction",
               "call primitivGetShapeDepth z,v", "sizeq primitivGetShapeDepth 1 1", "st fail nothing", "threads"]
     seen = set()
     lines = [l for l in lines if not (l in seen or seen.add(l))]
-    judge = make_judge(byname)
+    eq_stats = {}
+    judge = make_judge(byname, eq_stats)
+    chk.extra_cov["eq_outcomes"] = eq_stats
 
     dis, judged, crashes = chk.correspond("capi", "h_capi", [lines], stateful=False, cmp=cmp, judge=judge, extra_flags=flags, timeout=900,
-                                          nontrivial=lambda line, out: out == "ok" or out == "ok same" or out.startswith("ok "))
+                                          nontrivial=lambda line, out: out == "ok" or out == "ok same")
 
     # ---- size queries: phase 1 asks the implementation for the length of each source
     exe = build.build_harness("h_capi", extra_flags=flags)
